@@ -309,7 +309,8 @@ static void server_handle (const NiceAddress *srv, const NiceAddress *from, cons
   if (m == STUN_BINDING) {
     /* reflexive address = the source as seen by the server; "nat" mode maps 10.x to 198.51.100.x */
     NiceAddress mapped = *from;
-    if (strstr (sv->mode, "nat")) { char ip[64]; nice_address_to_string (from, ip); unsigned a, b, c, e; if (sscanf (ip, "%u.%u.%u.%u", &a, &b, &c, &e) == 4) { char nip[64]; sprintf (nip, "198.51.%u.%u", c, e); nice_address_set_from_string (&mapped, nip); nice_address_set_port (&mapped, nice_address_get_port (from)); } }
+    if (strstr (sv->mode, "sameip")) { nice_address_set_port (&mapped, nice_address_get_port (from) + 1000); }   /* a NAT on the host's own address: same IP, other port */
+    else if (strstr (sv->mode, "nat")) { char ip[64]; nice_address_to_string (from, ip); unsigned a, b, c, e; if (sscanf (ip, "%u.%u.%u.%u", &a, &b, &c, &e) == 4) { char nip[64]; sprintf (nip, "198.51.%u.%u", c, e); nice_address_set_from_string (&mapped, nip); nice_address_set_port (&mapped, nice_address_get_port (from)); } }
     nice_address_copy_to_sockaddr (&mapped, (struct sockaddr *) &ss);
     stun_agent_init_response (&ag, &rep, buf, sizeof buf, &req);
     if (old3489) stun_message_append_addr (&rep, STUN_ATTRIBUTE_MAPPED_ADDRESS, (struct sockaddr *) &ss, sizeof ss); else stun_message_append_xor_addr (&rep, STUN_ATTRIBUTE_XOR_MAPPED_ADDRESS, &ss, sizeof ss);
